@@ -11,6 +11,7 @@ from engine import pat
 from engine.util import own_nodes, calls_with_nodes, where
 
 RULES = {
+    "R-09.7": "names inside records of a zone file are made relative to the ZONE origin even below a `$ORIGIN` line: every name-reading call of a text reader passes origin, relativize and relativize_to on (C05 R-05.6 adopted)",
     "R-09.5": "skipping an ignored (out-of-zone) line terminates at end of input as well as at end of line: token loops of the zone reader leave on EOF (shared with C04 R-04.6)",
     "R-09.4": "character-strings written by the zone writer are read back octet for octet: the \\DDD escape is written and read with 3 digits and accepted up to 255 (C05 R-05.2 adopted)",
     "R-09.1": "the zone writer never raises for a style that keeps all information: the generic (\\#) path encodes with the style's origin, the writer functions contain no explicit raise, and every boolean style knob only selects between two total formatting branches",
@@ -168,6 +169,7 @@ def run(model, rep, tier):
     rep.check("if _matches_type_or_its_signature(_cname_types, rdtype, covers): return NodeKind.CNAME elif _matches_type_or_its_signature(_neutral_types, rdtype, covers): return NodeKind.NEUTRAL else: return NodeKind.REGULAR" in t,
               "R-09.3", nk.qualname, where(nk, nk.node), "classification: CNAME / neutral (NSEC, NSEC3, KEY and their signatures) / regular", "node-kind classification changed", stmt="classify")
     rep.assume("equality of the re-read zone and agreement of equivalent spellings are behavioural and are not decided here")
+    rep.share(model, "C05", {"R-05.6"}, "R-09.7", "the zone reader hands (current origin, relativize, zone origin) to dns.rdata.from_text for every record")
     rep.share(model, "C05", {"R-05.2"}, "R-09.4", "zone text is written with dns.rdata._escapify and read with Token.unescape_to_bytes")
     from rules.common import token_loops_end_at_eof
     token_loops_end_at_eof(model, rep, "R-09.5")
